@@ -20,6 +20,9 @@ structure StoreSt where
   spec : List Rule := []
   /-- every step so far was inside WF06 (and the priority branch is off) -/
   wf : Bool := true
+  /-- the reference list is still a meaningful oracle (plain rules only, never a rule twice): used
+      outside the theorem's hypothesis only to search for a failing input (`?` observations) -/
+  specOk : Bool := true
 
 def showIndex (ix : Index) : String :=
   let entries := ix.map (fun (k, v) => (encodeTok k, v))
@@ -40,13 +43,18 @@ def storeMut (st : StoreSt) (op : StoreOp) : StoreSt × String × String × Bool
     | .add r => some (Mgmt.add st.prio st.store r)
     | .addMany ex rs => some (Mgmt.addMany st.prio ex st.store rs)
     | _ => Mgmt.apply st.store op
+  let searchOk := st.specOk && st.prio.isNone && op.rules.all (plainRule st.arity) &&
+    specL.eraseDups.length == specL.length &&
+    (match op with | .removeFiltered fi vals => !vals.isEmpty && fi + vals.length ≤ st.arity | .updateMany os ns => os.length == ns.length | _ => true)
   match modelRes with
   | some (s', b) =>
-      ({ st with store := s', spec := specL, wf := wfNow }, showStore (showBool b) s', showSpec specB specL, wfNow)
+      ({ st with store := s', spec := specL, wf := wfNow, specOk := searchOk },
+        showStore (showBool b) s',
+        (if wfNow then showSpec specB specL else if searchOk then "?" ++ showSpec specB specL else "-"), wfNow)
   | none =>
       -- Go panics (out-of-range field) or reports the length error; state unchanged in the model
       let tag := match op with | .updateMany _ _ => "err" | _ => "panic"
-      ({ st with wf := false }, showStore tag st.store, "-", false)
+      ({ st with wf := false, specOk := false }, showStore tag st.store, "-", false)
 
 def splitTwo (sep : String) (ts : List String) : Option (List String × List String) :=
   match splitAt sep ts with
